@@ -15,6 +15,7 @@ func init() {
 			"C17.guarded — every read, update and delete of the driver's connection-cache map holds the driver mutex (exclusively for update/delete); " +
 			"C17.atomic — in the function that opens a file connection, the cache lookup, the updog.OpenIndex call and the cache insert all execute with the mutex held exclusively and no path from the lookup to the insert passes an unlock (one critical section), and the reference count of a found connection is incremented inside it. This is a necessary condition here because bbolt takes an exclusive flock: two first users that both reach OpenIndex block forever; " +
 			"C17.evict — in the connection's Close, every path to (*updog.Index).Close first deletes the connection from the cache, the delete and the reference-count decrement hold the mutex exclusively and no unlock lies between them, so a closed connection can never be handed out again. " +
+			"C17.connstate — every write to a field of the file connection object (shared by all pool slots of a DSN) after its construction holds the driver mutex exclusively; " +
 			"C17.cacheowner — the query cache given to an index is created for that index in the opening function (a cache shared between files or surviving a reopen returns another file's bitmaps). " +
 			"NOT decided: correctness of rows on an open handle beyond that (C12); database/sql's pool behaviour (trusted); two DSNs that name the same file with different option strings still open the file twice (second open blocks on the flock) — recorded in DESIGN.md as outside the decided clauses.",
 		assumptions: []string{"sync.RWMutex semantics", "database/sql calls driver.Conn.Close once per handed-out connection", "bbolt holds an exclusive flock while a DB is open"},
@@ -86,6 +87,38 @@ func runC17(c *Ctx) {
 	}
 	c.r.Stats["cache_accesses"] = n
 	c.r.expect(g, 3)
+	// ---- connstate: the file connection object is shared by every pool slot of a DSN (the open function hands the same
+	// reference-counted object to each driver.Open), so database/sql's "one goroutine per connection" rule does not
+	// protect its fields. Every write to a field of the connection type outside its construction must hold the driver
+	// mutex exclusively (atomic counters are method calls, not field writes, and are not instances).
+	nCS := 0
+	for _, fn := range re.sorted() {
+		for _, e := range fr.writes(fn) {
+			if e.Fresh {
+				continue
+			}
+			var fld *types.Var
+			for _, f := range e.fields() {
+				if c.w.ownerOf(f) == c.a.FileConnT {
+					fld = f
+					break
+				}
+			}
+			if fld == nil {
+				continue
+			}
+			nCS++
+			key := fmt.Sprintf("%s: %s fileConn.%s", safeFname(fn), e.Kind, fld.Name())
+			if la.stateAt(e.Ins)[mtx] != lkW {
+				c.r.bad("C17.connstate", key, "a field of the file connection, which all pool slots of a DSN share, is written without holding "+lockName+" exclusively: concurrent queries on the handle race on it and can be answered from another query's state", []string{c.w.ipos(e.Ins)}, re.chain(fn)...)
+			} else {
+				c.r.ok("C17.connstate", key, "under exclusive "+lockName, c.w.ipos(e.Ins))
+			}
+		}
+	}
+	if nCS == 0 {
+		c.r.ok("C17.connstate", "fileConn", "no field of the shared connection object is written after construction")
+	}
 
 	isUnlock := func(i ssa.Instruction) bool {
 		if _, isDefer := i.(*ssa.Defer); isDefer {
